@@ -35,8 +35,10 @@ use crate::{META_QUERY_SERVICE, SERVICE_NAME};
 const MAX_TXT_VALUE_LENGTH: usize = 255;
 
 /// A conservative maximum size (in bytes) of a complete TXT record,
-/// as encoded by [`append_txt_record`].
-const MAX_TXT_RECORD_SIZE: usize = MAX_TXT_VALUE_LENGTH + 45;
+/// as encoded by [`append_txt_record`]: the peer name (a length byte, up to
+/// 63 characters and the root label), type, class, TTL and data length
+/// (10 bytes), and the length byte of the character string.
+const MAX_TXT_RECORD_SIZE: usize = MAX_TXT_VALUE_LENGTH + 76;
 
 /// The maximum DNS packet size is 9000 bytes less the maximum
 /// sizes of the IP (60) and UDP (8) headers.
